@@ -65,3 +65,10 @@ add("C17", "CRASH", "fault_enumeration", "exhaustive enumeration of a generated 
 add("C20", "SEQ+SCHED", "model_checking", "explicit-state BFS over cache operation sequences with virtual time, plus preemption-bounded DFS over thread interleavings with a happens-before prefix cache, both on the real cache.Cache",
     "Sequential part: all sequences up to the depth bound of Set/Get/Delete/DeleteAll, cleanup-failure toggles and virtual time steps for Age in {0,10s} x Count in {0..3}, with the real age timer and pruneCount goroutine; every callback and the contents are checked after every step. Concurrent part: 9-12 scenarios of 1-3 threads (incl. a Get under the value's own mutex, due timers, overflow goroutines) explored over all interleavings up to preemption bound 2/3: every value that left the cache without being overwritten had a nil cleanup.",
     TRUSTED + " Scheduling points: lock, wait-group wait, channel operations, thread start/end; releases are not preemption points (sound under data-race freedom, which C13 checks).", "DESIGN.md section 4 C20")
+
+add("C11", "SCHED", "model_checking", "stateless preemption-bounded DFS over thread interleavings of the real server with a happens-before prefix cache; linearizability oracle by brute force over sequential interleavings of the same implementation",
+    "8-10 two- and three-thread scenarios per store on a pre-populated repository are explored over all interleavings up to preemption bound 2 (quick) / 3 (thorough); each explored execution's responses and complete read transcript at quiescence must equal the outcome of a sequential interleaving of the same requests (on a fresh instance) that respects the observed real-time order; additionally every acknowledged concurrent referrer must be listed.",
+    TRUSTED + " Scheduling points: lock, wait-group wait, channel operations, thread start/end; bound and caps reported per scenario.", "DESIGN.md section 4 C11")
+add("C12", "SCHED", "model_checking", "stateless preemption-bounded DFS over thread interleavings of the real server (request threads, gcTicker, cache timers, eviction goroutines, Close) with dead-lock and live-lock detection",
+    "27-31 scenarios (uploads racing with expiry and eviction, requests racing with a pending collection tick, a cancelled context behind a collection, repository cache expiry, Close racing with requests, first access of a legacy layout) are explored over all interleavings up to preemption bound 2 / 3 on both stores: every thread must finish; 'no enabled thread while a thread is unfinished' is a dead-lock, exceeding the horizon a live-lock.",
+    TRUSTED + " At most 3 request threads plus background threads; a lock cycle needing more participants is out of reach.", "DESIGN.md section 4 C12")
